@@ -197,7 +197,9 @@ World::World(eng::engine_schema sch) : schema(sch), v2(is_v2(sch)), db(std::shar
 World::World(eng::engine_schema sch, const std::string& dir, int mode) : schema(sch), v2(is_v2(sch)), db(std::shared_ptr<dj::database_impl>())
 {
     size_t before = seam::opened_handles().size();
-    db = mode == 0 ? eng::create_database(dir, sch) : eng::load_database(dir);
+    directory = dir;
+    loaded_schema = eng::engine_schema::schema_3_0_0;  // sentinel: must be overwritten by load_database
+    db = mode == 0 ? eng::create_database(dir, sch) : eng::load_database(dir, loaded_schema);
     if (seam::opened_handles().size() <= before) throw std::runtime_error("World: SQLite handle not captured");
     handle = seam::opened_handles().back();
     uuid = read_uuid(*this);
@@ -592,11 +594,12 @@ std::map<std::string, std::string> facts_of(const std::string& observation, cons
     return m;
 }
 
-std::string observe(World& w, bool include_track_fields)
+std::string observe(World& w, bool include_track_fields, bool include_handles)
 {
     Obs o;
     auto& db = w.db;
     o.fact("db.uuid_is_stored_uuid", [&](std::ostream& os) { os << (db.uuid() == w.uuid); });
+    o.fact("db.uuid", [&](std::ostream& os) { os << db.uuid(); });
     o.fact("db.version_name", [&](std::ostream& os) { os << db.version_name(); });
     o.fact("db.tracks", [&](std::ostream& os) { put_ids(os, db.tracks()); });
     o.fact("db.crates", [&](std::ostream& os) { put_ids(os, db.crates()); });
@@ -613,8 +616,10 @@ std::string observe(World& w, bool include_track_fields)
         o.fact(p + "tracks", [&](std::ostream& os) { put_ids(os, c.tracks()); });
         o.fact(p + "by_id", [&](std::ostream& os) { auto q = db.crate_by_id(c.id()); os << (q ? q->id() : -1); });
     }
+    if (include_handles)
     for (size_t k = 0; k < w.crates.size(); ++k)
         o.fact("handle.crate[" + std::to_string(k) + "]", [&](std::ostream& os) { os << w.crates[k].id() << " valid=" << w.crates[k].is_valid(); });
+    if (include_handles)
     for (size_t k = 0; k < w.tracks.size(); ++k)
         o.fact("handle.track[" + std::to_string(k) + "]", [&](std::ostream& os) { os << w.tracks[k].id() << " valid=" << w.tracks[k].is_valid(); });
     if (include_track_fields)
